@@ -1,7 +1,7 @@
 (* C12: narrowing a directory created with (mode | 0700) under the umask -- or the pre-created
    base directory -- to its recorded mode leaves mode minus umask.  Bit by bit: the twelve mode
    bits one after the other, all higher bits at once (no vm_compute sweep). *)
-From Oras Require Import Base.Prelude Model.TarRoundTrip.
+From Oras Require Import Base.Prelude Generated.GC12 Model.TarRoundTrip.
 
 Lemma testbit_small a k i : a < 2 ^ k -> k <= i -> N.testbit a i = false.
 Proof.
@@ -36,7 +36,7 @@ Proof.
   assert (Hch : forall c i, c < 4096 -> 12 <= i -> N.testbit c i = false).
   { intros c i Hc Hi. apply (testbit_small c 12); [exact Hc|exact Hi]. }
   split; apply N.bits_inj; intro i;
-    unfold narrow_mode, mid_dir_mode, create_mode, perm_bits, dir_create_bits, owner_rwx;
+    unfold narrow_mode, mid_dir_mode, create_mode, perm_bits, dir_create_bits, owner_rwx, c12_dir_owner_bits;
     bit_specs;
     (destruct (N.lt_ge_cases i 12) as [Hi|Hi];
      [ assert (Hc : i = 0 \/ i = 1 \/ i = 2 \/ i = 3 \/ i = 4 \/ i = 5 \/ i = 6 \/ i = 7 \/
@@ -48,4 +48,34 @@ Proof.
      | rewrite (Hmh i Hi), (Huh i) by lia;
        rewrite ?(Hch 511 i), ?(Hch 3584 i), ?(Hch 448 i), ?(Hch 1023 i) by (first [reflexivity | exact Hi]);
        reflexivity ]).
+Qed.
+
+(* restoreDirModes without PreservePermissions never drops a setuid/setgid/sticky bit that the
+   directory already has (e.g. the set-group-ID bit inherited from the working directory) nor
+   one that is recorded: the special bits of the result are exactly those two sets *)
+Lemma narrow_special cur m :
+  N.land (narrow_mode cur m) 3584 = N.lor (N.land cur 3584) (N.land m 3584).
+Proof.
+  apply N.bits_inj. intro i. unfold narrow_mode, perm_bits. bit_specs.
+  destruct (N.lt_ge_cases i 12) as [Hi|Hi].
+  - assert (Hc : i = 0 \/ i = 1 \/ i = 2 \/ i = 3 \/ i = 4 \/ i = 5 \/ i = 6 \/ i = 7 \/
+                 i = 8 \/ i = 9 \/ i = 10 \/ i = 11) by lia.
+    repeat (destruct Hc as [Hc|Hc]; [subst i; const_bits; var_bits; reflexivity|]).
+    subst i; const_bits; var_bits; reflexivity.
+  - rewrite (testbit_small 3584 12 i), (testbit_small 511 12 i) by (first [reflexivity|exact Hi]).
+    now rewrite !andb_false_r.
+Qed.
+
+(* ... and its permission bits are never wider than what the directory had *)
+Lemma narrow_never_widens cur m :
+  N.land (narrow_mode cur m) 511 = N.land (N.land cur 511) (N.land m 511).
+Proof.
+  apply N.bits_inj. intro i. unfold narrow_mode, perm_bits. bit_specs.
+  destruct (N.lt_ge_cases i 12) as [Hi|Hi].
+  - assert (Hc : i = 0 \/ i = 1 \/ i = 2 \/ i = 3 \/ i = 4 \/ i = 5 \/ i = 6 \/ i = 7 \/
+                 i = 8 \/ i = 9 \/ i = 10 \/ i = 11) by lia.
+    repeat (destruct Hc as [Hc|Hc]; [subst i; const_bits; var_bits; reflexivity|]).
+    subst i; const_bits; var_bits; reflexivity.
+  - rewrite (testbit_small 3584 12 i), (testbit_small 511 12 i) by (first [reflexivity|exact Hi]).
+    now rewrite !andb_false_r.
 Qed.
